@@ -67,12 +67,12 @@ type connRec struct {
 }
 
 type result struct {
-	out    vsched.Outcome
-	mu     sync.Mutex
-	dials  []dialRec
-	conns  []*connRec
-	peers  [][]l4proxy.VerifPeerState // snapshots at the end
-	negSeen string
+	out         vsched.Outcome
+	mu          sync.Mutex
+	dials       []dialRec
+	conns       []*connRec
+	peers       [][]l4proxy.VerifPeerState // snapshots at the end
+	negSeen     string
 	provisionAt int64
 }
 
@@ -185,7 +185,6 @@ func execute(x *explore.Exec, sc *Scn) *result {
 	}
 	return res
 }
-
 
 // ---- reference model ----------------------------------------------------------------------
 
@@ -473,7 +472,7 @@ func main() {
 	runner.Main(&runner.Harness{
 		ID:    "C11",
 		Level: "model_checking",
-		Rule: "proxy handler with two single-peer upstreams and the 'first' policy: settings fail_duration {0,2 s} x max_fails {0,1,2} x try_duration {0,1 s} x try_interval {250,400 ms} x 6 arrival patterns (1-5 connections) with EVERY success/failure vector of the dials (up to 3, thorough 5, failing dials); max_connections / unhealthy_connection_count {1,2} with overlapping 1 s connections; active checks (1 s) with scripted outages; x every interleaving within the delay budget. A reference model (failure timestamps per peer, open connections per upstream, active-check verdicts) replays the same dial outcomes and predicts every dial's target and every connection's fate and give-up time",
+		Rule:  "proxy handler with two single-peer upstreams and the 'first' policy: settings fail_duration {0,2 s} x max_fails {0,1,2} x try_duration {0,1 s} x try_interval {250,400 ms} x 6 arrival patterns (1-5 connections) with EVERY success/failure vector of the dials (up to 3, thorough 5, failing dials); max_connections / unhealthy_connection_count {1,2} with overlapping 1 s connections; active checks (1 s) with scripted outages; x every interleaving within the delay budget. A reference model (failure timestamps per peer, open connections per upstream, active-check verdicts) replays the same dial outcomes and predicts every dial's target and every connection's fate and give-up time",
 		Assumptions: []string{
 			"arrival instants are chosen so that no dial coincides with a failure's expiry instant",
 			"timing clauses are only asserted on executions without timer deviations",
@@ -485,6 +484,7 @@ func main() {
 			ex := explore.New(b)
 			ex.Total = tot
 			ex.Stop = rep.Expired
+			vsched.StateSink = rep.State
 			ex.Explore(func(x *explore.Exec) { check(x, sc, execute(x, sc)) })
 			rep.AddStats(sc, &ex.Stats)
 		},
